@@ -2,6 +2,9 @@
 import PkgsrcVerif.Props.C01
 import PkgsrcVerif.Props.C02
 import PkgsrcVerif.Props.C03
+import PkgsrcVerif.Props.C04
+import PkgsrcVerif.Props.C05
+import PkgsrcVerif.Props.C06
 import PkgsrcVerif.Props.C18
 import PkgsrcVerif.Props.C19
 import PkgsrcVerif.Driver.Pat
